@@ -2,6 +2,7 @@
 import random
 import struct
 
+from . import fakes  # noqa: F401  (installs the quiet log observer, repo path)
 from . import core, tlc
 from .tlaval import to_tla
 
